@@ -201,6 +201,22 @@ def kernel_prims(rng, full=False):
         for no in ['0', '1', '3', '8']:
             P.append('<feTurbulence type="%s" baseFrequency="%s" numOctaves="%s" seed="%d" stitchTiles="%s"/>'
                      % (rng.choice(['turbulence', 'fractalNoise']), bf, no, rng.below(100), rng.choice(['stitch', 'noStitch'])))
+    # extreme finite values for every scalar parameter (each call runs under the 3 s watchdog)
+    for v in ['1e6', '1e8', '1e10', '3e12', '3e38', '-1e7', '-1e10', '-3e38']:
+        P.append('<feColorMatrix type="hueRotate" values="%s"/>' % v)
+        P.append('<feColorMatrix type="saturate" values="%s"/>' % v.lstrip('-'))
+        P.append('<feComponentTransfer><feFuncR type="linear" slope="%s" intercept="%s"/><feFuncG type="gamma" amplitude="%s" exponent="%s" offset="%s"/>'
+                 '<feFuncB type="table" tableValues="%s 0 %s"/></feComponentTransfer>' % (v, v, v, rng.choice(['0.5', '3', v]), v, v, v))
+        P.append('<feDisplacementMap in2="SourceGraphic" scale="%s" xChannelSelector="R" yChannelSelector="A"/>' % v)
+        P.append('<feDiffuseLighting surfaceScale="%s" diffuseConstant="%s"><fePointLight x="%s" y="5" z="%s"/></feDiffuseLighting>' % (v, v.lstrip('-'), v, v))
+        P.append('<feSpecularLighting surfaceScale="%s" specularConstant="%s" specularExponent="128"><feSpotLight x="%s" y="%s" z="%s" pointsAtX="%s" '
+                 'pointsAtY="0" pointsAtZ="0" specularExponent="%s" limitingConeAngle="%s"/></feSpecularLighting>' % (v, v.lstrip('-'), v, v, v, v, v.lstrip('-'), v))
+        P.append('<feDiffuseLighting surfaceScale="1"><feDistantLight azimuth="%s" elevation="%s"/></feDiffuseLighting>' % (v, v))
+        P.append('<feComposite operator="arithmetic" in2="SourceGraphic" k1="%s" k2="%s" k3="%s" k4="%s"/>' % (v, v, v, v))
+        P.append('<feConvolveMatrix order="3" divisor="%s" bias="%s" kernelMatrix="%s 1 0 0 1 0 0 0 %s"/>' % (v, v, v, v))
+        P.append('<feMorphology operator="dilate" radius="%s"/>' % v.lstrip('-'))
+        P.append('<feGaussianBlur stdDeviation="%s"/>' % v.lstrip('-'))
+        P.append('<feTurbulence baseFrequency="%s" numOctaves="2" seed="%s"/>' % (v.lstrip('-'), v))
     return P
 
 
@@ -420,7 +436,7 @@ def run(ctx):
     prims = kernel_prims(rng, full=not quick)
     kitems = []
     for (w, h) in KSIZES:
-        for pr in (rng.sample(prims, 42) if quick else prims):
+        for pr in (rng.sample(prims, 48) if quick else prims):
             kitems.append((w, h, rng.below(1 << 30) + 1, rng.choice([0.02, 0.5, 1, 1, 3]), pr))
     kouts = ctx.rvh_batch(binp, 'c02-kernel', ["%d\t%d\t%d\t%s\t%s" % it for it in kitems], chunk=40)
     kst = dict(calls=len(kitems), ok=0, skipped=0, kinds={}, max_ms=0)
